@@ -352,6 +352,43 @@ class AddInputs(CircuitContract):
             yield ('no-raise', z3.BoolVal(False), {'raised': n, 'witness': 'raises-' + n})
 
 
+class MakeBlock(CircuitContract):
+    """make_block(name, gates, outputs, inputs) with explicitly given lists (each of <= 2 arbitrary labels): accepted exactly
+    when the name is free and every listed label is a gate; the new block names existing gates only (W7), nothing else changes"""
+    qualname = 'Circuit.make_block'
+
+    def __init__(self, kg, ko, ki):
+        self.k = (kg, ko, ki)
+        self.name = f'make_block/{kg}gates+{ko}outputs+{ki}inputs'
+
+    def setup(self, it, ctx):
+        c, h = self.circuit(it, ctx)
+        nm = z3.Const('bname', LabelSort)
+        lists = [[z3.Const(f'{w}{i}', LabelSort) for i in range(k)] for w, k in zip(('mg', 'mo', 'mi'), self.k)]
+        vl = [VList([Sym(x) for x in l]) for l in lists]
+        return [c, Sym(nm), vl[0], vl[1], vl[2]], {}, {'h': h, 'S0': h.S, 'nm': nm, 'lists': lists}
+
+    def post(self, it, ctx, result, st):
+        h, S0 = st['h'], st['S0']
+        yield from self.wf_post(it, ctx, h, rank=S0.rank)
+        S1 = h.S
+        allx = [x for l in st['lists'] for x in l]
+        yield ('accepted-only-existing-gates', z3.And([S0.dom(x) for x in allx]) if allx else z3.BoolVal(True))
+        yield ('frame', state_eq(ctx, S1, S0, GATES + USERS + IO))
+        yield ('returns-the-block', z3.BoolVal(isinstance(result, Obj) and result.cls.name == 'Block'))
+
+    def on_raise(self, it, ctx, exc, st):
+        n = self.exc_name(exc)
+        if n == 'CircuitValidationError':
+            allx = [x for l in st['lists'] for x in l]
+            S0, h = st['S0'], st['h']
+            name_taken = z3.Or(z3.And(S0.b_member, S0.b_name == st['nm']), h.other_block(st['nm']))
+            yield ('raise/name-taken-or-label-absent', z3.Or([name_taken] + [z3.Not(S0.dom(x)) for x in allx]), {'raised': n})
+            yield ('raise/state-untouched', state_eq(ctx, st['h'].S, S0, ALL))
+        else:
+            yield ('no-raise', z3.BoolVal(False), {'raised': n, 'witness': 'raises-' + n})
+
+
 def contracts():
     from .c19_rename import RenameGate
     from .c14_loop import IntoBench
@@ -360,7 +397,7 @@ def contracts():
     order = [OrderList(k) for k in ((0, 1, 2, 3, 4) if deep else (0, 1, 2, 3))] + [OrderInOut(w, k) for w in ('in', 'out') for k in ((0, 1, 2, 3) if deep else (0, 1, 2))]
     return order + [RenameGate(), IntoBench(), UserPrim('_add_user'), UserPrim('_remove_user'),
             AddGateLike('_emplace_gate', False), AddGateLike('_add_gate', False), AddGateLike('emplace_gate', True), AddGateLike('add_gate', True),
-            RemoveGate(), MarkAsOutput(), SetOutputs(), DeleteBlock()] + [SetInputs(k) for k in ((0, 1, 2, 3, 4) if env.TIER == 'thorough' else (0, 1, 2, 3))] + [AddInputs(k) for k in ((0, 1, 2, 3) if env.TIER == 'thorough' else (0, 1, 2))]
+            RemoveGate(), MarkAsOutput(), SetOutputs(), DeleteBlock(), MakeBlock(0, 0, 0), MakeBlock(1, 1, 1), MakeBlock(2, 1, 2)] + [SetInputs(k) for k in ((0, 1, 2, 3, 4) if env.TIER == 'thorough' else (0, 1, 2, 3))] + [AddInputs(k) for k in ((0, 1, 2, 3) if env.TIER == 'thorough' else (0, 1, 2))]
 
 
 
@@ -371,8 +408,8 @@ def run(rep):
                                             'background lemmas on tuples: count view = full prefix count; prefix counts are monotone']
     for a in STD_ASSUME:
         rep.assume(a)
-    rep.assume('P covers _add_user, _remove_user, _emplace_gate, _add_gate, emplace_gate, add_gate, remove_gate/_remove_gate, rename_gate, into_bench, mark_as_output, set_outputs, set_inputs (<=3 labels), add_inputs (<=2 labels), order_inputs/order_outputs (utils.order_list, requested prefix <=3, lists of any length), delete_block; '
-               'the remaining mutators (replace_inputs [C19], make_block*, connect_circuit family, replace_subcircuit, remove_block, __copy__) are bounded-only here '
+    rep.assume('P covers _add_user, _remove_user, _emplace_gate, _add_gate, emplace_gate, add_gate, remove_gate/_remove_gate, rename_gate, into_bench, mark_as_output, set_outputs, set_inputs (<=3 labels), add_inputs (<=2 labels), order_inputs/order_outputs (utils.order_list, requested prefix <=3, lists of any length), make_block with given lists (<=2 labels each), delete_block; '
+               'the remaining mutators (replace_inputs [C19], make_block with collected inputs, make_block_from_slice, connect_circuit family, replace_subcircuit, remove_block, __copy__) are bounded-only here '
                '(into_bench: loop proved here against the contract of convert_gate, whose clauses are discharged per gate type under C14)')
     it = new_interp()
     pv = Prover(rep, it, 'C02')
